@@ -858,7 +858,9 @@ func (g *gen) passerbyHeaders(st *Step) {
 			st.set("Connection", rt.Pick(g.r, []string{"close", "keep-alive"}))
 		}
 	case 2:
-		st.set("Accept-Encoding", rt.Pick(g.r, []string{"gzip", "gzip, deflate, br", "identity"}))
+		// (no Accept-Encoding: gzip here - a server that then compresses its
+		// answers is a conformant one, and the oracles read plain bodies)
+		st.set("Accept-Encoding", "identity")
 	case 3:
 		st.set("Translate", "f")
 	case 4:
